@@ -820,6 +820,8 @@ func (c *BytecodeCompiler) compileMethodDefinition(name value.Symbol, method *ty
 
 	if method.Base != nil {
 		// handle aliases
+		alias := method
+		defer alias.SetCompiled(true)
 		method = method.Base
 
 		if method.IsNative() {
